@@ -79,3 +79,16 @@ Example ex_reverse_access_map :
   | _ => False
   end.
 Proof. vm_compute. auto. Qed.
+
+(* alternatives (C10): with a second, longer egress walk from stop 3 the same query has two routes with different line sets,
+   each a valid itinerary of the ORIGINAL query; five line combinations were looked at *)
+Definition ex_egr_far : list fprow := [row 4 50 60; row 3 400 480].
+Example ex_alternatives_answer :
+  wf_tables_b ex_data (ex_params true 35000) ex_acc ex_egr_far = true /\
+  match alternatives ex_data ex_cs (ex_params true 35000) ex_acc ex_egr_far with
+  | Ok (l, n) =>
+      map (fun r => (rt_dep r, rt_arr r, route_lines ex_data r)) l = [(35840, 36750, [1%nat; 2%nat]); (35840, 37300, [1%nat])] /\
+      forallb (valid_itinerary_b ex_data scen_all (ex_params true 35000) ex_acc ex_egr_far) l = true /\ n = 5
+  | _ => False
+  end.
+Proof. vm_compute. auto. Qed.
